@@ -48,6 +48,9 @@ static const uint8_t ascii2hex[] = {
 size_t iwhex2bin(const char *hex, int hexlen, char *out, int max) {
   size_t pos = 0, vpos = 0;
   uint8_t idx0, idx1;
+  if ((hexlen < 1) || (max < 1)) { // no room for a single output byte
+    return 0;
+  }
   while (pos < hexlen) {
     if (!pos && (hexlen % 2)) { // first iteration + odd chars in hex
       idx0 = '0';               // add '0' prefix
